@@ -697,7 +697,7 @@ def _cond_polys(c):
     return [c.a, c.b]
 
 
-PIECEWISE_SCALES = (Fraction(1), Fraction(1, 2 ** 30), Fraction(1, 2 ** 60))
+PIECEWISE_SCALES = (Fraction(1, 2 ** 60), Fraction(1, 2 ** 30), Fraction(1))     # smallest first: fixed absolute thresholds show up there at once
 
 
 def has_selection(d):
